@@ -38,6 +38,9 @@ func (e *runEnv) emit(kind string, fields ...string) {
 	defer e.mu.Unlock()
 	e.n++
 	fmt.Fprintf(e.out, "%d\t%s\t%s\n", e.n, kind, strings.Join(fields, "\t"))
+	if e.n%64 == 0 {
+		e.out.Flush()
+	}
 }
 
 func (e *runEnv) count(key string) {
